@@ -1,4 +1,5 @@
 import ScionVerif.Lemmas.Router
+import ScionVerif.Model.SimPacket
 /-!
 # C13 — the simulated data plane enforces the SCION forwarding rules
 
@@ -200,6 +201,185 @@ theorem segChange_no_valley_no_core_loop (a b : LinkType) (h : segChangeValid a 
 /-- the table extracted from the Rust source equals the literal table of the reference router -/
 theorem segChange_eq_ref (a b : LinkType) : segChangeValid a b = Ref.xoverAllowed a b := by
   cases a <;> cases b <;> rfl
+
+
+/-! ## every path kind: standard, one-hop, empty, unsupported (`SpecRoutingLogic::route` dispatch) -/
+
+/-- **Local delivery only in the destination AS – for every path kind** (standard, one-hop, empty, unsupported). -/
+theorem routePkt_forwardLocal {macf : MacF} {localAs dstAs : Nat} {k k' : Pkt} {ing now : Nat} {key : List UInt8}
+    {lookup : Nat → Option IfState} {ign : Bool}
+    (h : routePkt macf localAs dstAs k ing now key lookup ign = (k', .forwardLocal)) : localAs = dstAs := by
+  unfold routePkt at h
+  cases k with
+  | std p =>
+    simp only [Prod.mk.injEq] at h
+    exact routeStd_forwardLocal (p2 := (routeStd macf localAs dstAs p ing now key lookup ign).1)
+      (Prod.ext rfl h.2)
+  | oneHop o =>
+    simp only [] at h
+    split at h
+    · split at h
+      · simp at h
+      · rename_i hne; simpa using hne
+    · rename_i a hna
+      simp only [Prod.mk.injEq] at h
+      exact absurd h.2 (by intro hc; exact hna hc)
+  | empty =>
+    simp only [] at h
+    split at h
+    · simp at h
+    · rename_i hne; simpa using hne
+  | unsupported => simp at h
+
+/-- how far a packet still is from its verdict: hop fields left (standard), one more AS if a one-hop packet
+    is still inside its source AS -/
+def Pkt.dist (k : Pkt) (curIf : Nat) : Nat :=
+  match k with
+  | .std p => p.hopCount - p.currHf
+  | .oneHop _ => if curIf = 0 then 1 else 0
+  | _ => 0
+
+theorem routePkt_forwardNext {macf : MacF} {localAs dstAs : Nat} {k k' : Pkt} {ing now : Nat} {key : List UInt8}
+    {lookup : Nat → Option IfState} {ign : Bool} {eg : Nat}
+    (h : routePkt macf localAs dstAs k ing now key lookup ign = (k', .forwardNext eg)) (nextIf : Nat) (hnz : nextIf ≠ 0) :
+    k'.dist nextIf < k.dist ing := by
+  unfold routePkt at h
+  cases k with
+  | std p =>
+    simp only [Prod.mk.injEq] at h
+    obtain ⟨rfl, h2⟩ := h
+    obtain ⟨hc, hlt, hlt2, _⟩ := routeStd_forwardNext (p2 := (routeStd macf localAs dstAs p ing now key lookup ign).1)
+      (Prod.ext rfl h2)
+    simp only [Pkt.dist]; omega
+  | oneHop o =>
+    simp only [] at h
+    split at h
+    · split at h <;> simp at h
+    · rename_i a hna
+      simp only [Prod.mk.injEq] at h
+      obtain ⟨rfl, h2⟩ := h
+      unfold routeOneHop at h2
+      split at h2
+      · rename_i hi
+        have : ing = 0 := by simpa using hi
+        simp [Pkt.dist, this, hnz]
+      · repeat' split at h2
+        all_goals simp at h2
+  | empty =>
+    simp only [] at h
+    split at h <;> simp at h
+  | unsupported => simp at h
+
+/-- **Bounded processing for every path kind**, in every topology whose links have non-zero interface ids
+    (as `ScionTopologyBuilder::add_link` enforces). -/
+theorem walkP_bounded (macf : MacF) (t : Topo) (dstAs now : Nat) (ign : Bool)
+    (hif : ∀ l ∈ t.links, l.peerIf ≠ 0) :
+    ∀ (fuel curAs curIf : Nat) (k : Pkt) (steps : Nat), k.dist curIf < fuel →
+      ∃ v q n, walkP macf t dstAs now ign fuel curAs curIf k steps = some (v, q, n) ∧
+        n ≤ steps + k.dist curIf + 1 := by
+  intro fuel
+  induction fuel with
+  | zero => intro _ _ k _ h; omega
+  | succ fuel ih =>
+    intro curAs curIf k steps hf
+    unfold walkP
+    split
+    · exact ⟨_, _, _, rfl, by omega⟩
+    · rename_i a _
+      simp only []
+      generalize hr : routePkt macf curAs dstAs k curIf now a.key (t.lookup curAs) ign = r
+      obtain ⟨k1, act⟩ := r
+      cases act with
+      | forwardNext eg =>
+        simp only []
+        split
+        · exact ⟨_, _, _, rfl, by omega⟩
+        · rename_i l hl
+          have hlm : l ∈ t.links := by
+            unfold Topo.link at hl; exact List.mem_of_find?_eq_some hl
+          have hd := routePkt_forwardNext hr l.peerIf (hif l hlm)
+          split
+          · exact ⟨_, _, _, rfl, by omega⟩
+          · split
+            · exact ⟨_, _, _, rfl, by omega⟩
+            · obtain ⟨v, q, n, hw, hn⟩ := ih l.peerAs l.peerIf k1 (steps + 1) (by omega)
+              exact ⟨v, q, n, hw, by omega⟩
+      | forwardLocal => exact ⟨_, _, _, rfl, by omega⟩
+      | ingressScmp i => exact ⟨_, _, _, rfl, by omega⟩
+      | egressScmp i => exact ⟨_, _, _, rfl, by omega⟩
+      | scmpError e => exact ⟨_, _, _, rfl, by omega⟩
+      | drop => exact ⟨_, _, _, rfl, by omega⟩
+
+/-- **Delivered only in the destination AS, for every path kind.** -/
+theorem walkP_delivered_at_dst (macf : MacF) (t : Topo) (dstAs now : Nat) (ign : Bool) :
+    ∀ (fuel curAs curIf : Nat) (k : Pkt) (steps : Nat) (a : Nat) (q : Pkt) (n : Nat),
+      walkP macf t dstAs now ign fuel curAs curIf k steps = some (.delivered a, q, n) → a = dstAs := by
+  intro fuel
+  induction fuel with
+  | zero => intro _ _ _ _ _ _ _ h; simp [walkP] at h
+  | succ fuel ih =>
+    intro curAs curIf k steps a q n h
+    unfold walkP at h
+    split at h
+    · simp at h
+    · rename_i ai _
+      simp only [] at h
+      generalize hr : routePkt macf curAs dstAs k curIf now ai.key (t.lookup curAs) ign = r at h
+      obtain ⟨k1, act⟩ := r
+      cases act with
+      | forwardNext eg =>
+        simp only [] at h
+        split at h
+        · simp at h
+        · split at h
+          · simp at h
+          · split at h
+            · simp at h
+            · exact ih _ _ _ _ _ _ _ h
+      | forwardLocal =>
+        simp only [Option.some.injEq, Prod.mk.injEq, Verdict.delivered.injEq] at h
+        rw [← h.1]; exact routePkt_forwardLocal hr
+      | ingressScmp i => simp at h
+      | egressScmp i => simp at h
+      | scmpError e => simp at h
+      | drop => simp at h
+
+/-- on standard paths the general walk is the walk of `Model/SimRouter.lean` -/
+theorem walkP_std (macf : MacF) (t : Topo) (dstAs now : Nat) (ign : Bool) :
+    ∀ (fuel curAs curIf : Nat) (p : Path) (steps : Nat),
+      walkP macf t dstAs now ign fuel curAs curIf (.std p) steps =
+        (walk macf t dstAs now ign fuel curAs curIf p steps).map (fun r => (r.1, .std r.2.1, r.2.2)) := by
+  intro fuel
+  induction fuel with
+  | zero => intro _ _ _ _; rfl
+  | succ fuel ih =>
+    intro curAs curIf p steps
+    unfold walkP walk
+    cases ha : t.asInfo curAs with
+    | none => rfl
+    | some a =>
+      simp only [routePkt]
+      generalize routeStd macf curAs dstAs p curIf now a.key (t.lookup curAs) ign = r
+      obtain ⟨p1, act⟩ := r
+      cases act with
+      | forwardNext eg =>
+        simp only []
+        cases hl : t.link curAs eg with
+        | none => rfl
+        | some l =>
+          simp only []
+          cases hb : t.asInfo l.peerAs with
+          | none => rfl
+          | some b =>
+            simp only []
+            split
+            · rfl
+            · exact ih _ _ _ _
+      | forwardLocal => rfl
+      | ingressScmp i => rfl
+      | egressScmp i => rfl
+      | scmpError e => rfl
+      | drop => rfl
 
 
 /-! ## non-vacuity: a concrete two-AS walk that forwards once and delivers -/
